@@ -10,6 +10,10 @@ CLAIMED = {
   text="Deductive proof, for all bucket states, parameters, clock values and map contents, that the real bodies of TokenBucket.__init__/consume, RateLimiter.process_request and RateLimiter._cleanup_loop meet contracts taken from the property: exact refill/consume spec, 0<=tokens<=capacity, non-increasing potential tokens-rate*last+admitted, the window bound capacity+rate*T as a solver lemma over those contracts (telescoping is the trusted meta-rule R4), frame 'only buckets[client_ip] changes', 44+retry hint only when exhausted, and eviction only of buckets a refill would have saturated.",
   note="Assumed: floats as exact reals (rounding outside the proof), time.monotonic non-decreasing, asyncio single-threaded callbacks (process_request has no await: checked syntactically), asyncio.sleep modelled as arbitrary valid change of the bucket map; Python semantics of the pyvc encoding (DESIGN 2.2).",
   technique="contract-based deductive verification: VCs generated from the real AST by pyvc, discharged by z3 (nonlinear real arithmetic, arrays)", ref="6/C10"),
+ "C09": dict(
+  text="Deductive proof that AccessControl._is_allowed returns exactly the statement's policy (no deny entry contains the address and (an allow entry contains it or no allow list and default allow); unparsable => refused) for network lists of any length (two inductive loop invariants), that process_request refuses with one '53' line exactly then, that AccessControl.__init__ turns every list entry into its denotation or fails start-up with ValueError because some entry is uninterpretable (loop invariants over entry lists of any length), and that ServerConfig.get_access_control_config returns None only when the written policy admits everyone. Wiring of the component into the chain is decided by AST pattern obligations.",
+  note="Assumed: E10 ipaddress (parsing uninterpreted: a function of the string; containment = same version and integer interval), tomllib returns what is written; start_server/CLI/from_toml wiring checked structurally on the AST, not semantically; configured-but-empty allow list read as 'no allow list' (ambiguous in the statement).",
+  technique="contract-based deductive verification: pyvc VCs with quantified loop invariants, z3 (arrays + quantifiers)", ref="6/C09"),
 }
 NA_REASON = "check not built yet (work in progress; see DESIGN.md section 6 for the plan)"
 
